@@ -120,7 +120,7 @@ impl TopDownContext<'_, '_> {
       .collect();
     for dependency in dependencies.iter() {
       let consistent = match dependency {
-        Dependency::ReservedRequire => panic!("BUG: attempt to consistency check reserved require task dependency"),
+        Dependency::ReservedRequire => Ok(false), // Left over by an aborted execution of this task: inconsistent.
         Dependency::Require(task_dependency) => Ok(task_dependency.is_consistent(self)),
         Dependency::Read(resource_dependency) | Dependency::Write(resource_dependency) => resource_dependency.is_consistent_top_down(
           &mut self.session.resource_state,
